@@ -1,6 +1,6 @@
 #![no_main]
 //! C04 (+C03 on valid UTF-8). Input layout: [8 bytes: seed of the structured part (filters, headers) through the
-//! proptest strategy] [1 byte: schedule kind] [2 bytes: schedule parameter] [rest: the response body, verbatim].
+//! proptest strategy] [1 byte: schedule kind; bits 5-6 both set: declare an encoding, bit 4: send the body mislabelled] [2 bytes: schedule parameter] [rest: the response body, verbatim].
 use libfuzzer_sys::fuzz_target;
 use proptest::strategy::BoxedStrategy;
 use rio_verif::dom::Schedule;
@@ -36,9 +36,19 @@ fuzz_target!(init: { rio_verif::engine::install_panic_hook(); }, |data: &[u8]| {
             case.body = c16::Case::from_bytes(body.to_vec());
             case.schedule = schedule;
             case.fault = None;
+            // a quarter of the inputs: the same body behind a declared gzip / deflate / br encoding (part declared-encodings)
+            if kind & 0x60 == 0x60 {
+                let codec = ["gzip", "deflate", "br"][(param >> 8) % 3];
+                case.headers %= 3;
+                case.encoding = Some(c04::Enc { codec: codec.to_string(), spelled: codec.to_string(), mislabelled: kind & 0x10 != 0, level: (param % 10) as u8 });
+            }
             let out = c04::check(&case);
             if let Some(m) = out.failure {
-                report("C04", "bytes", &case, &m);
+                // known finding D26 (error inside a chain with codec stages) is tolerated while it is listed
+                if c04::is_d26(&case, &m) && rio_verif::known::is_listed("C04", c04::D26) {
+                    return;
+                }
+                report("C04", if case.encoding.is_some() { "declared-encodings" } else { "bytes" }, &case, &m);
             }
         }
     } else if let Ok(text) = std::str::from_utf8(body) {
